@@ -23,6 +23,7 @@ def readBack (sp : Spec) (v : Val) : RVal :=
   | .int i => .int (truncInt sp.width i)
   | .str s => .str (strip (renderField sp (.str s)))
   | .fix k => .dec (truncFix sp.width sp.prec k) sp.prec
+  | .nan => .nan
 
 /-- the layout conditions under which a reader column is total -/
 def totalOk (sp : Spec) (rty : RTy) (v : Val) : Prop :=
@@ -69,6 +70,9 @@ theorem field_read_total (fmt : List Seg) (env : Env) (n : FName) (rty : RTy) (a
     have hne : strip (renderField sp (.fix k)) ≠ [] := by
       intro h0; rw [h0] at hr; simp [parseDec, parseDecBody] at hr
     simp [hne, convert, hr, readBack]
+  | nan =>
+    rw [hv] at hk
+    cases hty : sp.ty <;> cases rty <;> simp only [hty] at hk
 
 /-- all columns of a record at once: reading NEVER fails -/
 theorem fields_read_total (fmt : List Seg) (env : Env) (h : allTrunc fmt = true) (slices : List RSlice)
@@ -219,20 +223,20 @@ theorem pdb_atom_total (excl : List (List Char)) (serial : Nat) (a : Atom) :
   by_cases he : cutL 2 (a.element.getD []) = []
   · cases hf : (cutL 4 (a.atomname.getD [])).find? isAsciiLetter with
     | none =>
-      simp [pdbAtomOfProps, Props.str, Props.int, Props.dec, Props.get, List.find?, he, hf, firstAlpha, bind,
+      simp [pdbAtomOfProps, Props.isNan, Props.str, Props.int, Props.dec, Props.get, List.find?, he, hf, firstAlpha, bind,
         Except.bind, pure, Except.pure]
     | some c =>
       by_cases halt : cutL 1 (a.altloc.getD []) ≠ [] ∧ cutL 1 (a.altloc.getD []) ≠ ['A']
-      · simp [pdbAtomOfProps, Props.str, Props.int, Props.dec, Props.get, List.find?, he, hf, firstAlpha, bind,
+      · simp [pdbAtomOfProps, Props.isNan, Props.str, Props.int, Props.dec, Props.get, List.find?, he, hf, firstAlpha, bind,
           Except.bind, pure, Except.pure, halt]
       · by_cases hex : cutL 3 (a.resname.getD []) ∈ excl <;>
-          simp [pdbAtomOfProps, Props.str, Props.int, Props.dec, Props.get, List.find?, he, hf, firstAlpha, bind,
+          simp [pdbAtomOfProps, Props.isNan, Props.str, Props.int, Props.dec, Props.get, List.find?, he, hf, firstAlpha, bind,
             Except.bind, pure, Except.pure, halt, hex]
   · by_cases halt : cutL 1 (a.altloc.getD []) ≠ [] ∧ cutL 1 (a.altloc.getD []) ≠ ['A']
-    · simp [pdbAtomOfProps, Props.str, Props.int, Props.dec, Props.get, List.find?, he, bind,
+    · simp [pdbAtomOfProps, Props.isNan, Props.str, Props.int, Props.dec, Props.get, List.find?, he, bind,
         Except.bind, pure, Except.pure, halt]
     · by_cases hex : cutL 3 (a.resname.getD []) ∈ excl <;>
-        simp [pdbAtomOfProps, Props.str, Props.int, Props.dec, Props.get, List.find?, he, bind,
+        simp [pdbAtomOfProps, Props.isNan, Props.str, Props.int, Props.dec, Props.get, List.find?, he, bind,
           Except.bind, pure, Except.pure, halt, hex]
 
 /-- the explicit condition under which the line of an atom is read as an atom: an element can be
